@@ -17,6 +17,10 @@ func vc13pID(tag string) component.ID {
 
 func VerifC13Pipeline() {
 	p := &PipelineConfig{}
+	if vChoice("lists-written-as-empty-rather-than-omitted", 2) == 1 {
+		// `exporters: []` decodes to an empty non-nil list, an omitted key to nil: both are "no exporters"
+		p.Receivers, p.Exporters, p.Processors = []component.ID{}, []component.ID{}, []component.ID{}
+	}
 	nr, ne, np := vChoice("receivers", 3), vChoice("exporters", 3), vChoice("processors", vParam("maxProcessors")+1)
 	for i := 0; i < nr; i++ {
 		p.Receivers = append(p.Receivers, vc13pID("receiver"))
